@@ -50,7 +50,7 @@ def run(chk):
                               "that are needed to start over untouched")
     chk.rule("C17-D8.flush", "every evaluation of the candidates callback is preceded, in the same function, by load_complete(): samples that are stored but not yet in the grid "
                              "(after a restart: the ones recovered from the checkpoint) must not be proposed again")
-    chk.rule("C17-D5.budget", "after recovery the launched-sample count is initialised from both the loaded points and the recovered-but-not-yet-loaded samples")
+    chk.rule("C17-D5.budget", "after recovery the launched-sample count is initialised from every place where a recovered sample can be: the temporary storage, the loaded points and the construction data of the grid")
 
     for fn in cores:
         chk.saw(fn)
@@ -263,6 +263,13 @@ def run(chk):
             raise AnalysisBroken("total_num_launched not found")
         it = txt(strip(tl[0]["c"][0]))
         chk.ob("C17-D5.budget", name, "launched count starts from stored + loaded", "complete.getNumStored()" in it and "grid.getNumLoaded()" in it and "+" in it, fn.loc(tl[0]), it)
+        # a recovered sample can sit in three places: the temporary storage, the loaded points, and the construction data of the grid (samples parked
+        # until their tensor / their parents arrive; they are written and read back with the grid).  The count has to cover all of them.
+        parked_terms = [q for q in walk(tl[0]) if q.get("k") == "CXXMemberCallExpr" and (callee(q) or "").startswith("TasGrid::TasmanianSparseGrid::")
+                        and short(callee(q) or "") not in ("getNumLoaded", "getNumPoints", "getNumNeeded", "getNumDimensions", "getNumOutputs")]
+        chk.ob("C17-D5.budget", name, "launched count covers the samples parked in the construction data of the grid", bool(parked_terms), fn.loc(tl[0]),
+               "" if parked_terms else "`%s` counts the temporary storage and the loaded points only; samples that the recovered grid holds in its construction data are "
+               "evaluated results too, the restart may launch that many samples beyond the budget" % it[:80])
         # and the recovery block precedes it
         rb = [t for tfn_, t in tries]
         chk.ob("C17-D5.budget", name, "count initialised after the recovery block", all(t.get("l", 0) < tl[0].get("l", 0) for t in rb), fn.loc(tl[0]))
